@@ -716,6 +716,16 @@ func checkC07(c *Ctx) {
 	}, "C11/READ/absent-index", "C07/EMPTY/absent-index", "file store: on the index load path every existence probe is made on the index itself, so a directory without index is an empty mailbox and not an error for list / get / mark-seen / remove / add")
 	r.Floor("C07/EMPTY/absent-index", "borrowed obligations", nA, 1)
 	c.c07Exhaustive()
+	// the ordered-mailbox model evicts the oldest message when the cap is exceeded, in both
+	// back-ends alike (decided by C08's cap rule): an eviction that picks its victim by
+	// arithmetic on ids instead of walking the live messages diverges from the model — and from
+	// the other back-end — as soon as the ids have a gap
+	nC := c.borrow(func(c2 *Ctx) {
+		if pm2 := c2.pairing(); pm2.ok {
+			c2.c08Cap(pm2)
+		}
+	}, "C08/CAP/order", "C07/CAP/oldest-first", "cap eviction removes the oldest live message, in the memory store through a cursor that advances over the ids, in the file store from the head of the list")
+	r.Floor("C07/CAP/oldest-first", "borrowed obligations", nC, 1)
 }
 
 func pkgFuncs(p *eng.Prog, rel string) []*ssa.Function {
